@@ -97,10 +97,14 @@ struct C15 : Prop {
 			J ph = J::obj(); J ev = J::arr();
 			size_t k = r.below(ns.size());
 			if (ns[k].addr.empty()) { continue; }
+			// (a node beneath an interface that is not on the bus can neither leave nor log in)
+			{ bool parent_gone = false; for (auto &y : ns) if (y.iface && !y.present && !y.addr.empty() && y.addr.size() < ns[k].addr.size() && std::equal(y.addr.begin(), y.addr.end(), ns[k].addr.begin())) parent_gone = true; if (parent_gone) continue; }
 			J e = J::obj(); e.set("at_us", (int) r.range(0, 3000)); e.set("node", pc::jaddr(ns[k].addr));
 			bool lost_notice_lost = false;
 			if (ns[k].present) {
 				e.set("topo", "lost"); ns[k].present = false;
+				// everything beneath a lost interface is gone with it and has to log in again, one by one, once the interface is back
+				if (ns[k].iface) for (auto &y : ns) if (y.addr.size() > ns[k].addr.size() && std::equal(ns[k].addr.begin(), ns[k].addr.end(), y.addr.begin())) y.present = false;
 				// the MSG_NODE_LOST itself is lost on the bus (CRC error): the host still believes the board connected when it logs in again, possibly elsewhere
 				if (r.chance(150)) { J fs = J::arr(); J f = J::obj(); f.set("kind", "lose"); fs.push(f); e.set("faults", fs); lost_notice_lost = true; }
 			}
@@ -117,6 +121,8 @@ struct C15 : Prop {
 					}
 				}
 				ns[k].present = true;
+				// the login notice of an interface is destroyed on the bus (CRC error): the host keeps it as lost while the nodes beneath it announce themselves
+				if (ns[k].iface && !e.has("as") && r.chance(200)) { J fs = J::arr(); J f = J::obj(); f.set("kind", "lose"); fs.push(f); e.set("faults", fs); lost_notice_lost = true; }
 			}
 			// the interface repeats a notice whose acknowledgement it missed (same or next sequence number): must change nothing
 			if (!lost_notice_lost && r.chance(250)) { J fs = J::arr(); J f = J::obj(); f.set("kind", "dup"); f.set("a", (int) r.below(2)); fs.push(f); e.set("faults", fs); }
